@@ -12,3 +12,19 @@ def explicit_retry_fn(runs, fail):
         return "ok"
 
     return fn
+
+
+def eager_reschedule_fn(runs):
+    """A recurring actor that answers itself with reschedule() after registering a callback that fails."""
+
+    async def fn(m: MessageDependency):
+        runs.append(1)
+
+        async def failing_callback():
+            raise RuntimeError("callback {0} failed")
+
+        m.add_callback(failing_callback)
+        await m.reschedule()
+
+    return fn
+
